@@ -487,6 +487,12 @@ def _put_one_constant(
     if hasattr(ast, 'kind'):  # reset any 'u' kind strings
         ast.kind = None
 
+    if value.__class__ is int and (parent := self.parent) and parent.a.__class__ is Attribute:  # same veeery special case as in _make_exprlike_fst(), "3.__abs__()" -> "(3).__abs__()"
+        _, _, end_ln, end_col = self.loc
+
+        if self.root._lines[end_ln].startswith('.', end_col):  # only if the dot follows directly, otherwise it already has parentheses or a space or a line continuation
+            self._parenthesize_grouping()
+
     return self  # this breaks the rule of returning the child node since it is just a primitive
 
 
